@@ -99,6 +99,10 @@ def apply_step(state, r):
     elif r["op"] == "rmf":
         if r["f"] in node.get("af", []):
             node["af"].remove(r["f"])
+    elif r["op"] == "detach":
+        node.setdefault("_det", []).append(node["ms"].pop(r["i"]))
+    elif r["op"] == "reattach":
+        node["ms"].append(node["_det"].pop(r.get("j", -1)))
     elif r["op"] == "add":
         if node["t"] == "fs" or node.get("wrap") == "store":
             node["adds"].append(r["x"])
@@ -335,8 +339,32 @@ def gen_sequence(rng, src, pop, nodes, ids):
         return out
 
     for _ in range(rng.randint(2, 5)):
+        paths = node_paths(state)
         r = rng.random()
-        if r < 0.35:
+        comps = [p for p in paths if sub(state, p)["t"] == "comp"]
+        if r < 0.25 and comps:
+            # a member is removed from a composite and (usually) attached again -- to the same composite, at the end
+            path = rng.choice(comps)
+            node = sub(state, path)
+            if node.get("_det") and (not node["ms"] or rng.random() < 0.6):
+                st = {"op": "reattach", "at": path, "j": rng.randrange(len(node["_det"])), "bulk": rng.random() < 0.3}
+            elif node["ms"]:
+                st = {"op": "detach", "at": path, "i": rng.randrange(len(node["ms"])), "bulk": rng.random() < 0.3}
+            else:
+                st = None
+            if st:
+                attached.clear()                 # member positions change: earlier paths are void
+                steps.append(st)
+                apply_step(state, st)
+                if st["op"] == "detach" and rng.random() < 0.7:
+                    paths = node_paths(state)
+                    if has_members(state):
+                        steps += reads_at([])
+                    st2 = {"op": "reattach", "at": path, "j": -1, "bulk": rng.random() < 0.3}
+                    steps.append(st2)
+                    apply_step(state, st2)
+                paths = node_paths(state)
+        elif r < 0.45:
             path = rng.choice(paths)
             f = rand_filter(rng, pop, nodes)
             st = {"op": "addf", "at": path, "f": f}
@@ -344,12 +372,12 @@ def gen_sequence(rng, src, pop, nodes, ids):
                 attached.append((path, f))
             steps.append(st)
             apply_step(state, st)
-        elif r < 0.5 and attached:
+        elif r < 0.55 and attached:
             path, f = attached.pop(rng.randrange(len(attached)))
             st = {"op": "rmf", "at": path, "f": f}
             steps.append(st)
             apply_step(state, st)
-        elif r < 0.8:
+        elif r < 0.85:
             lp = [p for p in paths if sub(state, p)["t"] == "fs" or sub(state, p).get("wrap") == "store"]
             if lp:
                 path = rng.choice(lp)
@@ -1025,7 +1053,7 @@ def check(run):
         "Environment(store, source) / Environment(source=composite[, sink]), composites optionally constructed (and handed to "
         "their parent) before some or all of their members are attached, with attached filters (all operators) at any level; every case also with the "
         "members attached in another order; half of the cases continue on the SAME source objects with a sequence of "
-        "add_filter / remove_filter at any level, later additions to the stores under the leaves, and reads of the top "
+        "add_filter / remove_filter at any level, remove_data_source(s) followed by attaching the member again, later additions to the stores under the leaves, and reads of the top "
         "source and of members directly in between; reads: get / all_versions per id, queries, relationships and related_to per node with all "
         "option combinations (type, source_only, target_only, both, extra filters; id / dict / object argument), "
         "creator_of; non-trivial = some navigation read returns an object")
